@@ -35,6 +35,7 @@ type c15SoakCfg struct {
 	Marker        int    `json:"marker_ops"`
 	Retransmit    bool   `json:"retransmissions"`
 	Flaky         bool   `json:"gets_cancelled_at_random_and_retried"`
+	OneShot       bool   `json:"each_consumer_gets_one_batch_only"` // several requests in flight, nobody loops: one token must serve them all
 	Seed          int64  `json:"seed"`
 }
 
@@ -69,6 +70,7 @@ func c15SoakRound(v *verifOut, cfg c15SoakCfg) {
 	lastErr := make([]error, cfg.Consumers)
 	var wgProd, wgCons sync.WaitGroup
 	var retries atomic.Int64
+	finished := make([]atomic.Bool, cfg.Consumers)
 
 	mark := func(cmds []c15Cmd) {
 		b := &Batch{}
@@ -128,6 +130,10 @@ func c15SoakRound(v *verifOut, cfg c15SoakCfg) {
 				if cfg.ConsumerMarks {
 					mark(cmds)
 				}
+				if cfg.OneShot {
+					finished[g].Store(true)
+					return
+				}
 			}
 		}()
 	}
@@ -149,8 +155,8 @@ func c15SoakRound(v *verifOut, cfg c15SoakCfg) {
 				if cfg.Retransmit && rng.Intn(6) == 0 {
 					add(uint64(1 + rng.Intn(k))) // a retransmission of this or an older command
 				}
-				if rng.Intn(3) == 0 {
-					runtime.Gosched()
+				if !cfg.OneShot && rng.Intn(3) == 0 {
+					runtime.Gosched() // (one-shot rounds: uninterrupted bursts)
 				}
 			}
 		}()
@@ -191,13 +197,22 @@ func c15SoakRound(v *verifOut, cfg c15SoakCfg) {
 			freshCached++
 		}
 	}
-	check(uint32(freshCached) < cfg.BS, "soak:lost-wakeup",
-		"all producers finished, %d consumers blocked in Get, but %d fresh commands are cached (batch size %d, token present: %v)",
-		cfg.Consumers, freshCached, cfg.BS, final.Ready)
+	blockedGets := 0
+	for g := range finished {
+		if !finished[g].Load() {
+			blockedGets++
+		}
+	}
+	check(blockedGets == 0 || uint32(freshCached) < cfg.BS, "soak:lost-wakeup",
+		"all producers finished, %d of %d consumers blocked in Get, but %d fresh commands are cached (batch size %d, token present: %v)",
+		blockedGets, cfg.Consumers, freshCached, cfg.BS, final.Ready)
 
 	cancel()
 	wgCons.Wait()
 	for g, err := range lastErr {
+		if finished[g].Load() {
+			continue // got its one batch and left
+		}
 		check(errors.Is(err, context.Canceled) && err == context.Canceled, "soak:get-end-not-cancellation", "consumer %d: Get ended with %v", g, err)
 	}
 
@@ -277,6 +292,13 @@ func TestVerifC15Soak(t *testing.T) {
 			}
 			if v.rng.Intn(2) == 0 {
 				cfg.Marker = v.rng.Intn(cfg.PerProducer)
+			}
+			if v.rng.Intn(3) == 0 {
+				cfg.OneShot = true
+				cfg.Consumers = 2 + v.rng.Intn(5)
+				cfg.PerProducer = 1 + v.rng.Intn(3*int(cfg.BS)*cfg.Consumers/cfg.Producers+2)
+				cfg.Marker = 0
+				v.Count("soak_rounds_one_shot")
 			}
 			c15SoakRound(v, cfg)
 		}
